@@ -192,9 +192,10 @@ def _valid_eq(cx, a, b):
 
 def jobs(tier):
     q = tier == "quick"
-    S2 = [("A", "EVSE", 208, 0), ("B", "DEADBAND", 240, 0)]
-    S2c = [("A", "CC", 208, 0), ("B", "EVSE", 120, 0)]
-    S3 = [("A", "EVSE", 208, 0), ("B", "CC", 120, 0), ("C", "DEADBAND", 240, 0)]
+    # station ids are deliberately NOT registered in alphabetical order, and stations are not interchangeable
+    S2 = [("PS-B", "EVSE", 208, 0), ("PS-A", "DEADBAND", 240, 0)]
+    S2c = [("st2", "CC", 208, 0), ("st10", "EVSE", 120, 0)]
+    S3 = [("C", "EVSE", 208, 0), ("A", "CC", 120, 0), ("B", "DEADBAND", 240, 0)]
     cfgs = []
     if q:
         for mode in ("plain", "json"):
